@@ -1976,6 +1976,9 @@ def key_split(s):
     if type(s) is bytes:
         return key_split(s.decode())
     if type(s) is tuple:
+        if not s:
+            # The empty tuple is a valid (if unusual) key
+            return "Other"
         return key_split(s[0])
     try:
         words = s.split("-")
